@@ -43,6 +43,16 @@ func init() {
 	})
 }
 
+// pickStoredValue: a value some stored pairs hold (so that a comparison with it accepts some rows and rejects others).
+func pickStoredValue(r *Rng, in []KV) string {
+	for try := 0; try < 6 && len(in) > 0; try++ {
+		if v := in[r.Intn(len(in))].V; isQuotable(v) && len(v) < 40 {
+			return v
+		}
+	}
+	return "v1"
+}
+
 type c13tmpl struct {
 	name string
 	gen  func(r *Rng, init []KV) string
@@ -158,6 +168,23 @@ var c13Templates = []c13tmpl{
 		return "delete where key >= " + quote(a) + " & key < " + quote(b)
 	}},
 	{"del-empty", func(r *Rng, in []KV) string { return "delete where key = 'a' & key = 'b'" }},
+	// a selective filter under a pinned scan: one Batch call of the scan then reads several
+	// chunks (some yielding nothing), and a DELETE or a satisfied LIMIT sits above it
+	{"del-prefix-filter", func(r *Rng, in []KV) string {
+		return "delete where key ^= " + quote(pickPrefix(r, in)) + " & value != " + quote(pickStoredValue(r, in))
+	}},
+	{"del-range-filter-limit", func(r *Rng, in []KV) string {
+		return fmt.Sprintf("delete where key >= %s & value != %s limit %d", quote(pickKey(r, in)), quote(pickStoredValue(r, in)), r.Range(1, 6))
+	}},
+	{"sel-prefix-filter-limit", func(r *Rng, in []KV) string {
+		return fmt.Sprintf("select * where key ^= %s & value != %s limit %d", quote(pickPrefix(r, in)), quote(pickStoredValue(r, in)), r.Range(1, 5))
+	}},
+	{"sel-range-filter-limit", func(r *Rng, in []KV) string {
+		return fmt.Sprintf("select key where key > %s & value = %s limit %d, %d", quote(pickKey(r, in)), quote(pickStoredValue(r, in)), r.Intn(3), r.Range(1, 4))
+	}},
+	{"sel-prefix-filter-order-limit", func(r *Rng, in []KV) string {
+		return fmt.Sprintf("select key, value where key ^= %s & value != %s order by value limit %d", quote(pickPrefix(r, in)), quote(pickStoredValue(r, in)), r.Range(1, 4))
+	}},
 
 	// statements that must be rejected at parse/plan time
 	{"rej-type", func(r *Rng, in []KV) string { return "select * where key = 1" }},
